@@ -11,11 +11,17 @@ Stand-ins
   root_soundness   success ∧ sane  ⇒  x ≥ 0, B x = B x0, Q_i = K_i (homogeneous) or the
                    solid-present / solid-absent alternative (single-salt systems); an exception
                    raised by chempy on a valid input is a violation.  Every violation carries the
-                   top-level key "chain" in {"default","Log","LogLin","Lin","solve"}.
-                   KNOWN FINDING F-C08 (DESIGN section 9): chain "Lin" (NumSys=(NumSysLin,) alone)
-                   reports success and sanity for wrong states; the deterministic witness of
-                   DESIGN section 9 is case 0 of every run.  Violations of the other chains are
-                   sorted first so that they are never hidden behind the known ones.
+                   top-level keys "chain" in {"default","Log","LogLin","Lin","solve"} and "symptom" in
+                   {"exception","nonfinite","element_lost","negative","conservation","quotient",
+                   "precipitation"} (first that applies, in that order).
+                   RECORDED FINDINGS (genuine defects of the tree, fixed cases fire them on every run):
+                   F-C08 (DESIGN section 9): chain "Lin" (NumSys=(NumSysLin,) alone) reports success and
+                   sanity for states that do not conserve / have Q != K (symptoms conservation, quotient);
+                   F-C08b: about 1 in 2000 default-chain (NumSysLog) calls does the same and loses a whole
+                   element (symptom element_lost).  Cause of both: the systems are over-determined
+                   (nr + #composition keys > ns), pyneqsys then uses scipy 'lm' whose success flag means
+                   "local minimum of |f|^2".  Violations of any other kind are sorted first so that they
+                   are never hidden behind the recorded ones (the reporter forwards three per stand-in).
   success_rate     default chain reports success ∧ sane in >= 95 % of the homogeneous cases
                    (violation only when the sample has >= 40 cases).
   brentq_agreement single equilibria: solve_equilibrium (brentq on the reaction coordinate)
